@@ -135,6 +135,13 @@ check("C09", "other",
       "Multi-line outputs, document-level rendering and non-zero exit codes are outside.",
       E2_NOTE + " Additionally trusts lib/miniregex.py.", E2_TECH, "E2", "DESIGN.md §3 C09")
 
+check("C17", "other",
+      "Partial: the two places where to_yaml_one_liner writes user text. On the MIR of the renderer: an environment value is written "
+      "as a properly escaped double-quoted YAML scalar (values <= 3/4 chars over {a, \", \\, :, space}) and wait.path is either quoted "
+      "like that or a plain scalar that a flow mapping cannot mistake (paths <= 3/4 chars over {a / . , } \"}); witnesses are replayed "
+      "through the real serde_yaml round trip. Durations, the other keys, document front-matter and serde_yaml itself are not claimed.",
+      E2_NOTE, E2_TECH, "E2", "DESIGN.md §3 C17")
+
 NA_LIST = [
     ("C07", "Cram parser: every clause is about string contents inside one regex-calling function; out of reach of Kani (heap/regex) and of control-flow-only MIR execution."),
     ("C12", "Shell-state carry-over is implemented by a bash script; no encoding of bash semantics is available here."),
